@@ -11,6 +11,14 @@ set_option linter.unusedSimpArgs false
 /-- the function never returns a deferred failure as a value (true of every denotation, `denLz_noPoison`) -/
 def NoPoison (f : Val → Res) : Prop := ∀ x e, f x ≠ .ok (.poison e)
 
+/-- … on the elements of a given sequence (what the rules need) -/
+def NoPoisonOn (f : Val → Res) (vs : List Val) : Prop := ∀ v ∈ vs, ∀ x, force v = .ok x → ∀ e, f x ≠ .ok (.poison e)
+
+theorem NoPoison.on {f : Val → Res} (h : NoPoison f) (vs : List Val) : NoPoisonOn f vs := fun _ _ x _ e => h x e
+
+theorem NoPoisonOn.tail {f : Val → Res} {v : Val} {vs : List Val} (h : NoPoisonOn f (v :: vs)) : NoPoisonOn f vs :=
+  fun u hu x hx e => h u (List.mem_cons_of_mem _ hu) x hx e
+
 def selL (f : Val → Res) (vs : List Val) : List Val := vs.map (fun v => lazyElem (force v >>= f))
 
 theorem seqOp2Lz_select (f : Val → Res) (vs : List Val) : seqOp2Lz "Select" f vs = .ok (.list (selL f vs)) := by
@@ -40,24 +48,25 @@ theorem force_lazyElem {r : Res} (h : ∀ e, r ≠ .ok (.poison e)) : force (laz
     simp only [lazyElem]
     exact force_of_ne_poison (fun e hv => h e (by rw [hv]))
 
-theorem bind_noPoison {r : Res} {f : Val → Res} (hf : NoPoison f) : ∀ e, (r >>= f) ≠ .ok (.poison e) := by
+theorem bind_noPoison {v : Val} {vs : List Val} {f : Val → Res} (hf : NoPoisonOn f (v :: vs)) :
+    ∀ e, (force v >>= f) ≠ .ok (.poison e) := by
   intro e
-  cases r with
+  cases hv : force v with
   | error e' => simp [bind, Except.bind]
-  | ok v => simpa [bind, Except.bind] using hf v e
+  | ok x => simpa [bind, Except.bind] using hf v (by simp) x hv e
 
 /-- Select ∘ Select -/
-theorem sel_sel (f g : Val → Res) (hf : NoPoison f) (vs : List Val) :
-    selL g (selL f vs) = selL (fun x => f x >>= g) vs := by
-  simp only [selL, List.map_map]
-  apply List.map_congr_left
-  intro v _
-  simp only [Function.comp]
-  rw [force_lazyElem (bind_noPoison hf)]
-  cases force v <;> simp [bind, Except.bind]
+theorem sel_sel (f g : Val → Res) : ∀ (vs : List Val), NoPoisonOn f vs →
+    selL g (selL f vs) = selL (fun x => f x >>= g) vs
+  | [], _ => rfl
+  | v :: vs, hf => by
+    have ih := sel_sel f g vs hf.tail
+    simp only [selL, List.map] at ih ⊢
+    rw [ih, force_lazyElem (bind_noPoison hf)]
+    cases force v <;> simp [bind, Except.bind]
 
 /-- First ∘ Select: only the first element is demanded -/
-theorem first_sel (f : Val → Res) (hf : NoPoison f) (vs : List Val) :
+theorem first_sel (f : Val → Res) (vs : List Val) (hf : NoPoisonOn f vs) :
     seqOp1Lz "First" (selL f vs) = seqOp1Lz "First" vs >>= f := by
   cases vs with
   | nil => simp [seqOp1Lz, selL, bind, Except.bind]
@@ -66,11 +75,11 @@ theorem first_sel (f : Val → Res) (hf : NoPoison f) (vs : List Val) :
     exact force_lazyElem (bind_noPoison hf)
 
 /-- Where ∘ Select = Select ∘ Where(composition) -/
-theorem whr_sel (f g : Val → Res) (hf : NoPoison f) : ∀ (vs : List Val),
+theorem whr_sel (f g : Val → Res) : ∀ (vs : List Val), NoPoisonOn f vs →
     whereLz g (selL f vs) = (whereLz (fun x => f x >>= g) vs).map (selL f)
-  | [] => rfl
-  | v :: vs => by
-    have ih := whr_sel f g hf vs
+  | [], _ => rfl
+  | v :: vs, hf => by
+    have ih := whr_sel f g vs hf.tail
     simp only [selL, List.map, whereLz]
     rw [force_lazyElem (bind_noPoison hf)]
     simp only [selL] at ih
@@ -96,13 +105,13 @@ theorem whr_sel (f g : Val → Res) (hf : NoPoison f) : ∀ (vs : List Val),
             · simp [hb, Except.map, pure, Except.pure]
 
 /-- SelectMany ∘ Select -/
-theorem many_sel (f g : Val → Res) (hf : NoPoison f) : ∀ (vs : List Val),
+theorem many_sel (f g : Val → Res) : ∀ (vs : List Val), NoPoisonOn f vs →
     manyLz g (selL f vs) = manyLz (fun x => f x >>= g) vs
-  | [] => rfl
-  | v :: vs => by
+  | [], _ => rfl
+  | v :: vs, hf => by
     simp only [selL, List.map, manyLz] at *
     rw [force_lazyElem (bind_noPoison hf)]
-    have ih := many_sel f g hf vs
+    have ih := many_sel f g vs hf.tail
     simp only [selL] at ih
     rw [ih]
     generalize manyLz (fun x => f x >>= g) vs = W
